@@ -132,6 +132,11 @@ static Pencil<T> make_pencil(const Desc& d, bool b_general)
             if (i + 1 < n)
                 B(i, i + 1) = B(i + 1, i) = 0.6L;
         }
+        // lgcB / bsc: an ill-conditioned B (condition number 2^lgcB) scaled by 10^bsc instead: one Gram-Schmidt pass in the B-inner product
+        // is then not enough for the fresh direction after the breakdown (the correction loop of expand_basis runs), and B-norms are
+        // far from 2-norms
+        if (d.has("lgcB"))
+            B = gen_spd(n, r, (int) d.i("lgcB")) * std::pow(10.0L, (LD) d.i("bsc", 0));
     }
     else
     {
